@@ -1,6 +1,217 @@
 import Driver.Util
-/-! Model driver stub (owned by the Codec work package). -/
+import Verif.Model.MptEnc
+import Verif.Model.MptCodec
+import Verif.Model.MptPartial
+/-! Model driver for the codec suites c14, c15mpt, c17 (op languages: go/harness/suite_c14.go, suite_c15mpt.go,
+    suite_c17.go).  `modeld codec`. -/
 namespace Driver.Codec
-def step (s : Unit) (_w : List String) : Unit × String := (s, "unimplemented")
-def main : IO Unit := Driver.loop () step
+open Verif.Mpt Verif.Codec Verif.Partial Driver
+
+structure St where
+  t : Node := .empty
+  v : Nat := 0
+  used : List Bytes := []                      -- paths mentioned so far (ASCII)
+  root : Bytes := []
+  order : List (Bytes × Verif.Codec.Repr) := [] -- frozen trie, pre-order
+  sizes : List Nat := []                       -- subtree size of each pre-order entry
+  full : Store := []
+  cur : Store := []
+  removed : List Bytes := []
+  touched : Option Nat := none                 -- c14: version written to every stored node by the last `touch`
+
+def maxSize : Nat := 10 * 1024 * 1024
+
+def keyStr (k : Bytes) : String := if k.isEmpty then "-" else hex k
+
+def outcome (t : Node) : Outcome → String
+  | .ok => "ok " ++ keyStr (root sha3 t)
+  | .notPresent => "notpresent"
+  | .tooLarge => "toolarge"
+  | .panic => "panic"
+
+def bytesLe : Bytes → Bytes → Bool
+  | [], _ => true
+  | _ :: _, [] => false
+  | a :: p, b :: q => if a < b then true else if b < a then false else bytesLe p q
+
+def sortBytes (l : List Bytes) : List Bytes := l.mergeSort (fun a b => bytesLe a b)
+
+def dedupSorted : List Bytes → List Bytes
+  | a :: b :: r => if a = b then dedupSorted (b :: r) else a :: dedupSorted (b :: r)
+  | l => l
+
+def fmtKeys (ks : List Bytes) : String :=
+  let ks := dedupSorted (sortBytes ks)
+  if ks.isEmpty then "-" else ",".intercalate (ks.map hex)
+
+def fmtEntries (es : List (Bytes × Bytes)) : String :=
+  let es := es.mergeSort (fun a b => bytesLe a.1 b.1)
+  if es.isEmpty then "-" else ",".intercalate (es.map (fun e => hex e.1 ++ "=" ++ hex e.2))
+
+def pathBytes (p : List Nib) : Bytes := p.map nibChar
+
+def strOfBytes (b : Bytes) : String := String.ofList (b.map (fun c => Char.ofNat c.toNat))
+
+def fmtPairs (ps : List (Bytes × Bytes)) : String :=
+  ",".intercalate (ps.map (fun (p, b) => (if p.isEmpty then "-" else strOfBytes p) ++ "=" ++ hex b))
+
+def sizesOf : Node → List Nat
+  | .empty => []
+  | .leaf _ _ _ => [1]
+  | .full _ ch _ =>
+    let subs := (List.finRange 16).flatMap (fun i => sizesOf (ch i))
+    (subs.length + 1) :: subs
+  | .ext _ _ c =>
+    let s := sizesOf c
+    (s.length + 1) :: s
+
+/-- c14 `store` / `save`: root and every stored node of the trie -/
+def storeLine (t : Node) (touched : Option Nat) : String :=
+  let e := entries sha3 t []
+  "ok " ++ keyStr e.1 ++ " " ++ fmtEntries (e.2.map (fun x =>
+    (x.1, encode (match touched with | some v => { x.2 with version := v } | none => x.2))))
+
+/-- c15mpt `dec` -/
+def decLine (bs : Bytes) : String :=
+  match decode bs with
+  | .ok r =>
+    match encodeChecked r with
+    | .ok e => "ok " ++ hex e ++ " " ++ (if hasHash r then hex (sha3 (hashBytes r)) else "-")
+    | _ => "panic"
+  | .err => "err"
+  | .panic => "panic"
+
+/-! c17 -/
+
+def fuelOf (s : St) : Nat := s.full.length + 2
+
+def ptOf (s : St) (store : Store) : PTree := buildRoot store.get (fuelOf s) s.root
+
+def indexOf (s : St) (i : Nat) : Option Nat :=
+  let n := s.order.length
+  if n ≤ 1 then none else some (1 + i % (n - 1))
+
+def keysAt (s : St) (idxs : List Nat) : List Bytes :=
+  (idxs.filterMap (fun i => s.order[i]?.map (·.1))).eraseDups
+
+def without (store : Store) (ks : List Bytes) : Store := store.filter (fun e => !ks.contains e.1)
+
+def donorOf (s : St) (ks : List Bytes) : List (Bytes × Verif.Codec.Repr) :=
+  ks.filterMap (fun k => (s.order.find? (fun e => e.1 == k)))
+
+def lresStr : LRes → String
+  | .ok v => "ok " ++ hex v
+  | .notPresent => "notpresent"
+  | .nodeNotFound => "nodenotfound"
+  | .panic => "panic"
+
+def missStr (pt : PTree) : String :=
+  match getAllMissing pt with
+  | none => "nodenotfound"
+  | some ks => "ok " ++ fmtKeys ks
+
+def boolStr (b : Bool) : String := if b then "true" else "false"
+
+def idxList (xs : List Nat) : String := if xs.isEmpty then "-" else ".".intercalate (xs.map toString)
+
+def usedSorted (s : St) : List Bytes := dedupSorted (sortBytes s.used)
+
+def digest (s : St) (idxs : List Nat) (v : Nat) : String :=
+  let ks := keysAt s idxs
+  let cur := without s.full ks
+  let pt := ptOf s cur
+  let miss := allMissing pt
+  let missIdx := (List.range s.order.length).filter (fun i => match s.order[i]? with | some e => miss.contains e.1 | none => false)
+  let cls := String.ofList ((usedSorted s).map (fun p => match lookupP pt p with
+    | .ok _ => 'v' | .notPresent => 'n' | .nodeNotFound => 'm' | .panic => 'p'))
+  let cur' := mergeDB v cur (donorOf s ks)
+  let pt' := ptOf s cur'
+  let rep := if !hasMissing pt' && (getAllMissing pt' == some [] || s.root.isEmpty) then "ok" else "FAILED"
+  idxList (idxs.mergeSort (fun a b => a ≤ b)) ++ ":" ++ boolStr (hasMissing pt) ++ ":" ++ idxList missIdx ++ ":"
+    ++ (if cls.isEmpty then "-" else cls) ++ ":" ++ rep
+
+def subtreeIdx (s : St) (j : Nat) : List Nat :=
+  match s.sizes[j]? with
+  | some sz => (List.range sz).map (· + j)
+  | none => [j]
+
+def step (s : St) (w : List String) : St × String :=
+  match w with
+  | ["new", _, v] => ({ t := .empty, v := v.toNat! }, "ok")
+  | ["ver", v] => ({ s with v := v.toNat! }, "ok")
+  | ["ins", p, b] =>
+    match parsePath p, unhex b with
+    | some p, some b =>
+      let (t', o) := Trie.insert maxSize s.v s.t p b
+      ({ s with t := t', used := pathBytes p :: s.used, touched := none }, outcome t' o)
+    | _, _ => (s, "bad-op")
+  | ["del", p] =>
+    match parsePath p with
+    | some p =>
+      let (t', o) := Trie.delete s.v s.t p
+      ({ s with t := t', used := pathBytes p :: s.used, touched := none }, outcome t' o)
+    | none => (s, "bad-op")
+  | ["layer"] => (s, "ok")
+  | ["touch", v] => ({ s with touched := some v.toNat! }, "ok")
+  | ["store"] => (s, storeLine s.t s.touched)
+  | ["save"] => (s, storeLine s.t none)
+  | ["dec", b] =>
+    match unhex b with
+    | some bs => (s, decLine bs)
+    | none => (s, "bad-op")
+  | "prune" :: _ => (s, "ok")
+  | "prunex" :: _ => (s, "ok")
+  | ["snap"] =>
+    let e := entries sha3 s.t []
+    let full : Store := e.2.map (fun x => (x.1, encode x.2))
+    ({ s with root := e.1, order := e.2, sizes := sizesOf s.t, full := full, cur := full, removed := [] },
+      "ok " ++ keyStr e.1 ++ " " ++ toString e.2.length)
+  | ["rm", l] =>
+    let idxs := (l.splitOn ",").filterMap (fun x => indexOf s x.toNat!)
+    let ks := keysAt s idxs
+    ({ s with cur := without s.full ks, removed := ks }, "ok " ++ fmtKeys ks)
+  | ["rmsub", i] =>
+    let idxs := match indexOf s i.toNat! with
+      | some j => subtreeIdx s j
+      | none => []
+    let ks := keysAt s idxs
+    ({ s with cur := without s.full ks, removed := ks }, "ok " ++ fmtKeys ks)
+  | ["has"] => (s, boolStr (hasMissing (ptOf s s.cur)))
+  | ["miss"] => (s, missStr (ptOf s s.cur))
+  | ["get", p] =>
+    match parsePath p with
+    | some p => ({ s with used := pathBytes p :: s.used }, lresStr (lookupP (ptOf s s.cur) (pathBytes p)))
+    | none => (s, "bad-op")
+  | ["iter"] =>
+    let pt := ptOf s s.cur
+    (s, match iterErr .nodeNotFound pt with
+        | .none => "ok " ++ fmtPairs (valuesP pt [])
+        | .nodeNotFound => "nodenotfound"
+        | .missingNodes => "missingnodes"
+        | .iterChild => "iterchild")
+  | ["repair", v] =>
+    let cur' := mergeDB v.toNat! s.cur (donorOf s s.removed)
+    let pt := ptOf s cur'
+    ({ s with cur := cur', removed := [] },
+      "ok " ++ keyStr s.root ++ " has=" ++ boolStr (hasMissing pt) ++ " miss="
+        ++ (match getAllMissing pt with | none => "nodenotfound" | some ks => fmtKeys ks) ++ " donor=same")
+  | ["sweep1"] =>
+    let n := s.order.length
+    let recs := (List.range (n - 1)).map (fun j => digest s [j + 1] s.v)
+    (s, "ok " ++ (if recs.isEmpty then "-" else ";".intercalate recs))
+  | ["sweepsub"] =>
+    let n := s.order.length
+    let recs := (List.range (n - 1)).map (fun j => digest s (subtreeIdx s (j + 1)) s.v)
+    (s, "ok " ++ (if recs.isEmpty then "-" else ";".intercalate recs))
+  | ["all"] =>
+    let n := s.order.length
+    if n > 10 then (s, "skip") else
+    let recs := (List.range (2 ^ (n - 1) - 1)).map (fun m =>
+      let mask := m + 1
+      digest s ((List.range (n - 1)).filterMap (fun b => if mask.testBit b then some (b + 1) else none)) s.v)
+    (s, "ok " ++ (if recs.isEmpty then "-" else ";".intercalate recs))
+  | _ => (s, "bad-op")
+
+def main : IO Unit := loop ({} : St) step
+
 end Driver.Codec
